@@ -574,6 +574,15 @@ func (ev *Evaluator) call(x *ECall, env *Env) Val {
 		return ev.weightedSum(ev.Eval(x.Args[0], env), 4)
 	case "u384":
 		return ev.weightedSum(ev.Eval(x.Args[0], env), 6)
+	case "lo", "hi":
+		ag, ok := ev.Eval(x.Args[0], env).(Agg)
+		if !ok || len(ag.Elems) != 2 {
+			ev.fail("%s: expected two-word value", x.Fn)
+		}
+		if x.Fn == "lo" {
+			return ag.Elems[0]
+		}
+		return ag.Elems[1]
 	case "real":
 		return Leaf{T: realOfInt(ev.specOf(ev.Eval(x.Args[0], env)))}
 	case "ite":
